@@ -771,8 +771,10 @@ def comment_event(rec: Recorder, src, init, path, kind, field, full, text, inden
 def run_shard(args):
     """args = (shard id, [(trace id, prog, variant, seed, budget dict)], tier opts) -> (batch, meta)."""
     shard_id, specs, conf = args
-    from corpus.programs import PROGRAMS
+    from corpus.programs import PROGRAMS as _CORPUS
     from . import layouts
+    from .c07_programs import EXTRA
+    PROGRAMS = list(_CORPUS) + EXTRA
     rec = Recorder()
     traces = []
     meta = {}
